@@ -34,6 +34,7 @@ BUDGET = {'quick': 15, 'thorough': 150}
 
 K_QUOTED_COMMA = 'accept-quoted-comma-split'
 K_BACKSLASH = 'quoted-value-trailing-backslash-swallows-params'
+K_ACCEPTS_SHORTCUT = 'client-accepts-identical-string-shortcut'
 K_IOR_FAIL = 'handlers-ior-partial-failure-stale-cache'
 K_COPYCOPY = 'handlers-copycopy-shares-resolver'
 K_EMPTY_COPY = 'handlers-copy-of-empty-gets-defaults'
@@ -101,6 +102,8 @@ def judge(rec, fn, sp, got, exc, wit, header, candidates=None, texts=(), naive_s
     rec.count('kind.' + sp.kind)
     for i in sp.info:
         rec.count('cls.' + i)
+    if sp.why:
+        rec.count('why.' + sp.why)
     bad = assess(fn, sp, got, exc, candidates)
     if bad is None:
         if exc is not None:
@@ -251,6 +254,13 @@ def check_client(rec, header, cands):
             rec.count('mon.client_accepts.' + stack)
             if not _accepts_ok(sp, got):
                 naive_ok = _accepts_ok(M.spec_quality(mt, effective, naive=True), got)
+                if got is True and effective == mt:
+                    # Request.client_accepts() answers True for accept == media_type before looking at q
+                    rec.violation('client_accepts-mismatch',
+                                  {'fn': 'client_accepts', 'stack': stack, 'header': header, 'media_type': mt,
+                                   'got': got, 'want_quality': sp.value, 'spec': sp.kind},
+                                  known_key=K_ACCEPTS_SHORTCUT)
+                    continue
                 rec.violation('client_accepts-mismatch',
                               {'fn': 'client_accepts', 'stack': stack, 'header': header, 'media_type': mt,
                                'got': got, 'want_quality': sp.value, 'spec': sp.kind},
@@ -327,7 +337,30 @@ def exhaustive_negotiation(rec):
             if idx % 5 == 0:
                 check_client(rec, header, CANDS[:2])
             rec.case(('hq', header))
+    # media types (candidates) that are unusual but have one reading: blanks round the slash; a parameter that
+    # happens to be called q (on a media type it is an ordinary, hence extraneous, parameter); and a candidate
+    # spelled byte for byte like the whole Accept header
+    for a in atoms:
+        idx += 1
+        if idx % rec.nshards != rec.shard:
+            continue
+        bare = a.split(';q=')[0]
+        for c in SPECIAL_CANDS + [a, bare]:
+            check_quality(rec, c, a)
+            rec.count('cls.special_candidate')
+        for lst in ([a], [bare, a], [a, bare], ['image/png', a, bare], [SPECIAL_CANDS[idx % len(SPECIAL_CANDS)], bare]):
+            check_best_match(rec, lst, a, iterable_kind=idx)
+        check_client(rec, a, [a, bare, SPECIAL_CANDS[idx % len(SPECIAL_CANDS)]])
+        for b in atoms[idx % 7::7]:
+            h2 = a + ', ' + b
+            check_quality(rec, h2, h2)          # not a media type: only "documented error or a quality"
+            check_best_match(rec, [h2, bare], h2, iterable_kind=idx)
+        rec.case(('self', a))
     rec.count('exh.headers', idx // rec.nshards)
+
+
+SPECIAL_CANDS = ['text/ plain', 'text /plain;a=1', ' text / html', 'text/\tplain;a=2', 'text/plain;q=0', 'text/plain;q=0.5',
+                 'text/plain;a=1;q=0', 'text/html;Q=1', 'text/plain; q=0']
 
 
 # ---- random grammar-driven generator
@@ -347,7 +380,8 @@ GARBAGE_MEMBERS = ['text/', '/plain', 'te xt/plain', 'text/plain;x', 'text/plain
                    'text/plain;a=1;a=2', 'text/plain;x="a\\bc"', 'text/plain;q="0.5"', 'text/plain;q=0x1',
                    't\xe9xt/plain', 'text/plain;q=0.5;q=0.2']
 REJECT_MEMBERS = ['garbage', 'text', 'word document', 'text;q=0.5', '**']
-LENIENT_MEMBERS = ['', ' ', '*', '*;q=0.5', 'text/plain; a = 1', 'text/html;level= 1']
+LENIENT_MEMBERS = ['', ' ', '*', '*;q=0.5', 'text/plain; a = 1', 'text/html;level= 1',
+                   'text/ plain;q=0.7', 'text /html;q=0', '* / *;q=0.2', 'text / *;q=0.3', 'text/\tplain;a=1']
 
 
 def _sep(rng):
@@ -446,6 +480,12 @@ def gen_case(rng, hostile):
             c = '*/*'
         elif hostile and r < 0.10:
             c = rng.choice(['text', '', 'garbage', 'Text/Plain', 'text/plain;q=0.5', 'a/b/c'])
+            clean = False
+        elif hostile and r < 0.16:
+            c = c.replace('/', rng.choice([' /', '/ ', ' / ', '/\t']), 1)      # blanks round the slash
+            clean = False
+        elif hostile and r < 0.20 and ',' not in header:
+            c = header                                                           # spelled like the whole header
             clean = False
         cands.append(c)
     return header, cands, clean
@@ -1009,10 +1049,17 @@ class History:
             if body:
                 rec.violation('error-body-in-unacceptable-type', wit, known_key=_known_for(accept))
             return
+        # the first of the equally acceptable candidates, candidates = JSON, the XML types, then the registered
+        # types in the order the mapping lists them (the same first-of-equals rule as everywhere else)
         best = max(qs)
         tie = [c for c, q in zip(cands, qs) if q == best]
-        if ctype not in tie or ('application/json' in tie and ctype != 'application/json'):
-            rec.violation('error-type-not-preferred', dict(wit, acceptable_best=tie), known_key=_known_for(accept))
+        if len(tie) > 1:
+            rec.count('errser.tie')
+            if 'application/json' not in tie and tie[0] not in predefined:
+                rec.count('errser.tie_among_registered')
+        if ctype != sp.value:
+            rec.violation('error-type-not-preferred', dict(wit, acceptable_best=tie, want_type=sp.value),
+                          known_key=_known_for(accept))
             return
         if ctype == '*/*':
             return                   # a literal */* key chosen: which default applies is not stated
@@ -1110,6 +1157,31 @@ def exhaustive_histories(rec, world):
             changed = h.run([list(o) for o in ops])
             rec.case(('hist', ops) if changed else None)
     rec.count('exh.histories', 1)
+
+
+TIE_KEYS = ['application/x-a', 'application/x-b', 'application/x-c', 'application/x-d', 'application/x-e',
+            'application/x-f']
+TIE_ACCEPTS = ['application/*;q=0.8, application/json;q=0.1, application/xml;q=0.1',
+               ', '.join(k + ';q=0.8' for k in reversed(TIE_KEYS)) + ', application/json;q=0.1',
+               '*/*;q=0.5']
+
+
+def exhaustive_errser_ties(rec, world):
+    """Error serializer with several registered types that the client likes equally well: every rotation of the
+    registration order, so that the expected winner (the first the mapping lists) is each key once - no
+    iteration order other than the mapping's own can get all of them right, whatever the string hash seed."""
+    idx = 0
+    for rot in range(len(TIE_KEYS)):
+        for tail in ([['set', -1, 'application/x-g', False], ['del', -1, TIE_KEYS[rot]]],
+                     [['copy', -1], ['pop', -1, TIE_KEYS[(rot + 1) % len(TIE_KEYS)], False]]):
+            idx += 1
+            if idx % rec.nshards != rec.shard:
+                continue
+            keys = TIE_KEYS[rot:] + TIE_KEYS[:rot]
+            h = History(rec, world, [[k, bool(i % 2)] for i, k in enumerate(keys)], 'application/json',
+                        [keys[0], keys[-1], None], public=True, errser_accept=TIE_ACCEPTS)
+            h.run(tail)
+            rec.case(('ties', rot, idx))
 
 
 R_KEYS = ['application/json', 'application/json; charset=utf-8', 'text/plain', 'text/*', 'text/html',
@@ -1213,6 +1285,7 @@ def run(rec):
     hostile_app_preamble(rec)
     exhaustive_negotiation(rec)
     exhaustive_histories(rec, world)
+    exhaustive_errser_ties(rec, world)
     rec.exhaustive = True
     if rec.shard == 0:
         rec.note('exhaustive: headers of <=3 ranges over %d atoms; mapping programs of depth 2 over %d ops%s'
@@ -1248,6 +1321,7 @@ def run(rec):
                     ('chg.set', 20), ('chg.del', 20), ('chg.update', 10), ('chg.pop', 10), ('chg.popitem', 10),
                     ('chg.setdefault', 5), ('chg.clear', 10), ('chg.default', 10), ('chg.ior', 5),
                     ('op.copy', 10), ('op.copycopy', 5), ('op.or', 5),
+                    ('errser.tie_among_registered', 20), ('cls.special_candidate', 100), ('why.blank-round-slash', 50),
                     ('mon.parse_header', 500), ('mon.parse_header_owned', 500), ('ph.no_options', 100),
                     ('ph.with_options', 100),
                     ('op.update_fail', 20), ('op.ior_fail', 10), ('op.fail.applied_some', 20), ('chg.update_fail', 10),
